@@ -218,6 +218,20 @@ def build_repo_bins():
     return 0
 
 
+def c17_cli_convert(tier, seed):
+    """C17 glue: the real convert_kytea_model tool on generated KyTea files (whole and truncated): the written model equals the
+    library conversion and the model the file encodes; truncated files make the tool fail without a panic"""
+    r = subprocess.run([HARNESS, "c17cli", tier, str(seed)], capture_output=True, text=True, env=ENV)
+    m = re.search(r"cli_convert files=(\d+) failures=(\d+)", r.stdout)
+    out = {"name": "cli_convert", "evaluations": 2 * int(m.group(1)) if m else 0, "failures": [], "suspicions": [],
+           "note": "convert_kytea_model on resources/kytea-model.bin and generated files (half with content in the ignored parts), whole and cut at a random point"}
+    if r.returncode != 0 or m is None:
+        out["failures"].append({"what": "the convert_kytea_model run crashed", "stderr": r.stderr[-500:]})
+    for f in [l for l in r.stdout.splitlines() if l.startswith("FAIL")][:3]:
+        out["failures"].append({"what": "convert_kytea_model disagrees with the library conversion / the file's content, or panicked on a truncated file", "detail": f[:2000]})
+    return out
+
+
 def c19_cli_roundtrip(tier, seed):
     """C19: dump the dictionary with the real manipulate_model, replace it with the unmodified dump, compare the model files byte for byte"""
     r = subprocess.run([HARNESS, "c19cli", tier, str(seed)], capture_output=True, text=True, env=ENV)
